@@ -279,6 +279,8 @@ def run_case(h, R, line, idx):
         except TimeoutError:
             timed_out = True
         state = 'closed' if closed else 'open'
+        if os.environ.get('SESSION_DUMP'):                 # debugging aid: the raw replies of the case
+            open(os.environ['SESSION_DUMP'], 'ab').write(out + b'\n=====\n')
         a.close()
         try:
             p.wait(timeout=10)
